@@ -5977,6 +5977,12 @@ class LazyContainer(dict):
     def __len__(self):
         return len(self._struct.subcons)
 
+    def get(self, key, default=None):
+        # dict.get would read the (empty) underlying dict instead of the lazily parsed members
+        if isinstance(key, str) and key in self._struct._subconsindexes:
+            return self[key]
+        return default
+
     def keys(self):
         return iter(self._struct._subcons)
 
